@@ -100,6 +100,34 @@ pub fn drive(log: &mut Log) {
         }
     }
     log.oblige("exhaustive_small");
+    // (a2) every binary pattern of length 5..=9 (11 thorough) against its own self-overlaps:
+    // text = p[..s] + p for every shift s, and p p p. An occurrence at s exists iff p has the
+    // corresponding border, so every entry of the failure/shift tables is exercised
+    // (nested borders first differ from simple ones at length 9).
+    let maxp = if log.opts.thorough() { 11 } else { 9 };
+    for algo in ALGOS.iter() {
+        for m in 5..=maxp {
+            for code in 0..(1u32 << m) {
+                case += 1;
+                if !log.mine(case) {
+                    continue;
+                }
+                let p: Vec<u8> = (0..m).map(|i| if (code >> i) & 1 == 1 { b'b' } else { b'a' }).collect();
+                let mut texts: Vec<Vec<u8>> = vec![];
+                for sft in 1..=m {
+                    let mut t = p[..sft].to_vec();
+                    t.extend_from_slice(&p);
+                    texts.push(t);
+                }
+                let mut ppp = p.clone();
+                ppp.extend_from_slice(&p);
+                ppp.extend_from_slice(&p);
+                texts.push(ppp);
+                run_one(log, "so", algo, &p, &texts);
+            }
+        }
+    }
+    log.oblige("self_overlap_all_borders");
     // (b) word-size boundaries, periodic families, full byte range
     let lens_bp: [usize; 10] = [1, 2, 7, 31, 32, 33, 62, 63, 64, 65];
     let lens_any: [usize; 8] = [1, 2, 3, 16, 33, 64, 65, 70];
